@@ -564,12 +564,17 @@ struct SimThread {
     start_seen: Option<usize>, // what the thread knew of `sequence` when the snapshot began
     last_seq_read: Option<u64>,
     last_snap_base: Option<u64>,
+    /// the largest base time of a valid update call that RETURNED (accepted or ignored; `try_update`
+    /// only when it answered true) in this thread or in a thread it synchronised with since
+    floor: u64,
+    /// that floor (SC: over all threads) when the current snapshot began
+    floor_at_start: u64,
 }
 
 impl SimThread {
     fn new() -> SimThread {
         SimThread { view: [0; 5], call: None, fed: vec![], pending: None, status: Status::Idle, own_steps: 0, lock_ops: 0,
-                    stores: 0, start_seen: None, last_seq_read: None, last_snap_base: None }
+                    stores: 0, start_seen: None, last_seq_read: None, last_snap_base: None, floor: 0, floor_at_start: 0 }
     }
 }
 
@@ -583,6 +588,8 @@ struct Sim {
     threads: Vec<SimThread>,
     /// shadow: the pairs whose `sequence` store happened, in order, after the epoch pair
     committed: Vec<(u64, u64)>,
+    /// shadow (SC machine): the largest base time of a valid update call that has returned
+    sc_floor: u64,
 }
 
 fn join(a: &View, b: &View) -> View {
@@ -605,7 +612,7 @@ struct StepOutcome {
 impl Sim {
     fn new(sc: bool) -> Sim {
         Sim { sc, mem: Default::default(), held: None, poisoned: false, mview: [0; 5], threads: vec![],
-              committed: vec![(0, vouch_bits(0))] }
+              committed: vec![(0, vouch_bits(0))], sc_floor: 0 }
     }
 
     fn thread(&mut self, t: usize) -> &mut SimThread {
@@ -672,14 +679,22 @@ impl Sim {
         th.stores = 0;
         th.start_seen = None;
         th.last_seq_read = None;
+        th.floor_at_start = th.floor;
+        if self.sc {
+            let f = self.sc_floor;
+            let th = self.thread(t);
+            th.floor_at_start = th.floor_at_start.max(f);
+        }
         self.refresh(t, obj, viol);
         true
     }
 
     fn sync(&mut self, t: usize, u: usize) {
         let uv = self.thread(u).view;
+        let uf = self.thread(u).floor;
         let th = self.thread(t);
         th.view = join(&th.view, &uv);
+        th.floor = th.floor.max(uf);
     }
 
     /// The choices a scheduler has for thread `t`: `None` = not runnable now.
@@ -820,6 +835,7 @@ impl Sim {
         }
         let was_blocked_try = op == OpRec::TryLock && self.threads[t].fed.last() == Some(&Fed::Lk(Lk::WouldBlock));
         self.refresh(t, obj, &mut viol);
+        let mut new_floor: Option<u64> = None;
         let th = &mut self.threads[t];
         match th.status.clone() {
             Status::Finished(r) => {
@@ -852,9 +868,22 @@ impl Sim {
                         }
                     }
                     th.last_snap_base = Some(b);
+                    // ... nor than a valid update call that had RETURNED before it began (in this
+                    // thread, in a thread it synchronised with, or - SC - anywhere): accepted or
+                    // ignored, the update leaves the current base time at least as recent as its own
+                    if b < th.floor_at_start {
+                        viol.push(format!("C13 snapshot base {} older than an update call (base {}) that returned before it began", b, th.floor_at_start));
+                    }
                     if th.lock_ops > 0 || th.stores > 0 {
                         viol.push("C18 snapshot used the lock or wrote".into());
                     }
+                }
+                match (call, r) {
+                    (Call::Update(b, v), Ret::Unit) | (Call::TryUpdate(b, v), Ret::Bool(true)) if vouch_bits(b) == v => {
+                        th.floor = th.floor.max(b);
+                        new_floor = Some(b);
+                    }
+                    _ => {}
                 }
                 if was_blocked_try && (r != Ret::Bool(false) || th.own_steps != 1) {
                     viol.push("C18 try_update did not return false at once although the lock was held".into());
@@ -877,6 +906,9 @@ impl Sim {
                     }
                 }
             }
+        }
+        if let Some(b) = new_floor {
+            self.sc_floor = self.sc_floor.max(b);
         }
         if !sc {
             desc.push_str(&format!(" view={}", fmt_view(&self.threads[t].view)));
@@ -1386,6 +1418,11 @@ impl Family for AbtFamily {
             format!("explore sc {} u5,u7/t9/s,s", budget),
             format!("explore ra {} x5,u6/t7/s", budget),
             format!("explore ra {} u5,u3,u6/s,s", budget),
+            // two BLOCKING writers racing for the lock, the second one then reads: an update that
+            // returned (accepted or ignored) must be covered by every later snapshot of its thread
+            format!("explore sc {} u5,u9/u7,s", budget),
+            format!("explore ra {} u5,u9/u7,s", budget),
+            format!("explore sc {} u5,u9/t7,u7,s", budget),
         ];
         if thorough {
             explores.push(format!("explore ra {} u5,u7/t6,u8/s,s", budget));
